@@ -140,7 +140,7 @@ def run_case(ctx, case):
     flav = case["flavour"]
     if kind == "tables":
         _state["table_violations"] = {}
-        fobj = codec.flavour_obj(flav)
+        fobj = codec.fresh_flavour(flav)
         for msg in _state["table_violations"].values():
             ctx.fail(case, f"{flav}: Flavour.__init__ postcondition broken: {msg}", key="flavour-table-collision")
         classes = codec.flavour_classes(flav)
